@@ -234,7 +234,9 @@ impl<'a> Parser<'a> {
             self.advance();
 
             if self.current_token == Token::If {
-                Some(vec![self.parse_statement()?])
+                // the nested `als` is the only statement of the alternative; a `;` after the chain
+                // belongs to the statement the whole chain is part of and is left for it
+                Some(vec![Stmt::Expr(self.parse_expr(Precedence::Lowest)?)])
             } else {
                 Some(self.parse_block_statement()?)
             }
